@@ -135,6 +135,10 @@ fam(r"crrl::(jq255e|jq255s|gls254)::PublicKey::verify", ["C09"], [
     g(call(r"slice_eq", r"(local:\w+,sig\[0\.\.16\]|sig\[0\.\.16\],local:\w+)", r"PublicKey::verify"), "recomputed challenge equals c"),
 ])
 fam(r"crrl::(jq255e|jq255s|gls254)::PrivateKey::ECDH", ["C09"], [
+    dict(src=call(r"Point::set_decode", r"peer_pk", r"PrivateKey::ECDH"), why="the returned KEY (not only the status) is switched on the decoding status", field=0),
+    dict(src=call(r"Point::isneutral", ANY, r"PrivateKey::ECDH"), why="the returned KEY is switched to the secret-derived substitute for a neutral peer key too", field=0),
+    dict(src=call(r"Point::set_decode", r"peer_pk", r"PrivateKey::ECDH"), why="status word depends on decoding", field=1),
+    dict(src=call(r"Point::isneutral", ANY, r"PrivateKey::ECDH"), why="status word depends on the neutral test", field=1),
     g(call(r"Point::set_decode", r"peer_pk", r"PrivateKey::ECDH"), "peer key decoding status"),
     g(call(r"Point::isneutral", ANY, r"PrivateKey::ECDH"), "neutral peer key is a failure"),
 ])
@@ -209,11 +213,25 @@ fam(r"crrl::frost::[a-z0-9]+::SignerPrivateKeyShare::verify_split", ["C15"], [
 # ---------------- C16: LMS verify ----------------
 fam(r"crrl::lms::[A-Za-z0-9_]+::PublicKey::verify", ["C16"], [
     g(r"lencmp:sig (Ne|Eq) \d+", "exact signature size"),
-    g(r"elemcmp:be\(sig\[0\.\.4\]\) Ge \d+", "leaf index q < 2^h"),
+    g(r"elemcmp:be\(sig\[0\.\.4\]\) Ge {pow2:h}", "leaf index q < 2^h, with 2^h taken from the parameter set's const h"),
     g(r"elemcmp:be\(sig\[0\.\.4\]\) (Ne|Eq) \d+", "LM-OTS type code"),
     g(r"elemcmp:be\(sig\[\d+\.\.\d+\]\) (Ne|Eq) \d+", "LMS type code"),
     g(call(r"slice_eq", ANY, r"PublicKey::verify"), "recomputed root equals the public key root"),
 ])
+
+
+CALL_ARGS = [
+    dict(fn=r"crrl::ed25519::(PrivateKey::sign|PublicKey::verify|PublicKey::verify_trunc)_raw", callee=r"crrl::ed25519::\w+::\w+_inner", params={"dom": 0, "phflag": 0},
+         props=["C07", "C13"], why="RFC 8032 5.1: pure Ed25519 uses no dom2 prefix"),
+    dict(fn=r"crrl::ed25519::(PrivateKey::sign|PublicKey::verify|PublicKey::verify_trunc)_ctx", callee=r"crrl::ed25519::\w+::\w+_inner", params={"dom": 1, "phflag": 0},
+         props=["C07", "C13"], why="RFC 8032 5.1: Ed25519ctx always uses dom2(0, ctx), also for an empty context"),
+    dict(fn=r"crrl::ed25519::(PrivateKey::sign|PublicKey::verify|PublicKey::verify_trunc)_ph", callee=r"crrl::ed25519::\w+::\w+_inner", params={"dom": 1, "phflag": 1},
+         props=["C07", "C13"], why="RFC 8032 5.1: Ed25519ph uses dom2(1, ctx)"),
+    dict(fn=r"crrl::ed448::(PrivateKey::sign|PublicKey::verify)_(raw|ctx)", callee=r"crrl::ed448::\w+::\w+_inner", params={"phflag": 0},
+         props=["C07"], why="RFC 8032 5.2: Ed448 uses dom4(0, ctx)"),
+    dict(fn=r"crrl::ed448::(PrivateKey::sign|PublicKey::verify)_ph", callee=r"crrl::ed448::\w+::\w+_inner", params={"phflag": 1},
+         props=["C07"], why="RFC 8032 5.2: Ed448ph uses dom4(1, ctx)"),
+]
 
 
 def main():
@@ -232,7 +250,8 @@ def main():
             mn = None
             for fn in matched:
                 have = gates.gate_strings(eng.summary(fn), fam_["include_out"], eng.policy)
-                n = len([h for h in have if re.fullmatch(gt["src"], h)])
+                have = gates.field_strings(eng.summary(fn), gt["field"], eng.policy) if "field" in gt else have
+                n = len([h for h in have if re.fullmatch(gates.subst_consts(f, fn, gt["src"]), h)])
                 mn = n if mn is None else min(mn, n)
             if not mn:
                 print("ZERO:", fam_["fn"], gt["src"], [fn["name"] for fn in matched if not any(
@@ -255,7 +274,7 @@ def main():
                         include_out=fam_["include_out"], optional=fam_["optional"], matched_today=len(matched)))
     tab = dict(_comment="G3 required gates / G1 forbidden flows. Generated by tools/gen_gates.py from the conjunct classes written "
                "there (spec references in 'why'); 'min' = number of distinct matching check facts reaching the result on the "
-               "reviewed tree.", functions=out)
+               "reviewed tree.", functions=out, call_args=CALL_ARGS)
     json.dump(tab, open(os.path.join(os.path.dirname(os.path.dirname(os.path.abspath(__file__))), "tables", "gates.json"), "w"), indent=1)
     print("families", len(out), "gates", sum(len(x["gates"]) for x in out), "problems", problems)
 
